@@ -501,4 +501,7 @@ func main() {
 
 	// T2 (C07): straight-line float code of distance/dna
 	emitNumericDist(repo, out, en)
+
+	// T3 (C19): mutation facts (mutfacts.go)
+	emitMutFacts(repo, out)
 }
